@@ -161,7 +161,7 @@ type Versions []*Version
 func (versions *Versions) UnmarshalYAML(value *yaml.Node) error {
 	unpacked := []*Version(*versions)
 
-	if value.Tag != "!!map" {
+	if value.Kind != yaml.MappingNode || value.Tag != "!!map" {
 		return fmt.Errorf("expected versions map")
 	}
 
